@@ -72,6 +72,28 @@ def gen_plan(rng, i: int, tier: str) -> dict:
             # lockstep at the world's seams (so that the stores of the threads fall together) plus line-level pre-emption in between
             plan["threads"] = {"mode": "marks", "q": r.choice((0.7, 0.9, 1.0)), "p": r.choice((0.02, 0.1, 0.3))} if r.random() < 0.7 else {"mode": "prob", "p": r.choice((0.05, 0.3))}
         return plan
+    if i % 25 == 18:
+        # a ladder on one triple: fetch at a low position, hit it, fetch at a higher position, then positions in between and below
+        # (whatever the cache remembers about its last answer, the newer, more covering material must serve them)
+        lo_ = [l0, rng.randrange(0, max(1, now_pos[0] - 1)), rng.randrange(32)]
+        hi_ = [l0, rng.randrange(lo_[1] + 1, now_pos[0] + 1), rng.randrange(32)] if lo_[1] + 1 <= now_pos[0] else [l0, now_pos[0], now_pos[1]]
+        if tuple(hi_) > (l0,) + now_pos:
+            hi_ = [l0, now_pos[0], now_pos[1]]
+        mk = lambda p_, net="online": {"op": "unprotect", "fl": rng.choice(("sync", "async")), "net": net, "group": None,  # noqa: E731
+                                      "blob": {"rk": 0, "sid": offline.SID_A, "pos": list(p_), "mode": rng.choice(("nonce", "pub")), "data": 4}}
+        ops.append(mk(lo_))
+        ops.append(mk([l0, lo_[1], rng.randrange(0, lo_[2] + 1)]))
+        if rng.random() < 0.5:
+            ops.append({"op": "protect", "fl": rng.choice(("sync", "async")), "net": "online", "group": None, "sid": offline.SID_A, "rk": 0, "data": 5})
+        ops.append(mk(hi_))
+        for _ in range(rng.randint(1, 3)):
+            between = [l0, rng.randrange(lo_[1], hi_[1] + 1), rng.randrange(32)]
+            if tuple(between) > tuple(hi_):
+                between = list(hi_)
+            ops.append(mk(between, rng.choice(("online", "online", "offline"))))
+        ops.append(mk([l0, lo_[1], 0]))
+        plan["family"] = "ladder"
+        return plan
     if i % 25 == 6:
         # the DC found through DNS serves a first call, then goes away for good while another one (same keys, another name) takes
         # over and the SRV record follows; later calls on the same cache that need the DC must find the new one
@@ -301,7 +323,7 @@ class C10(common.Check):
     rule = ("case = plan of 2..10 operations on ONE shared KeyCache over {load_key, unprotect of a reference-made blob (2 root keys x 2 SIDs x "
             "current/previous L0 x positions incl. corners and DC-future), protect (root key id named or not), clock advance or step back, change of "
             "the caller's group membership, unprotect of a record whose tag bit is flipped followed later by the intact one}, plus long offline "
-            "histories over 17..24 L0 epochs, plus histories in which the DC found through DNS serves a first call and then goes away for good while another one takes over under another name (calls that need a DC must reach the new one, covered calls none), plus several L0 epochs of one (root key, SD) fetched at once by caller threads / async tasks and then used again, each offline or "
+            "histories over 17..24 L0 epochs, plus ladders on one triple (fetch low, hit, fetch higher, then positions in between), plus histories in which the DC found through DNS serves a first call and then goes away for good while another one takes over under another name (calls that need a DC must reach the new one, covered calls none), plus several L0 epochs of one (root key, SD) fetched at once by caller threads / async tasks and then used again, each offline or "
             "online, sync or async; consecutive async operations of a group run concurrently under the PRNG scheduler (latencies up to 200 ms "
             "decide completion order; a caller may cancel its call at a PRNG-chosen virtual instant; connects slower than the 5 s timeout), PRNG "
             "segmentation. Oracle: termination within 300 KDF calls; outcome in the set a fresh cache (with the "
@@ -312,7 +334,7 @@ class C10(common.Check):
                   "security context": "stub (StubCtx)", "reference model": "analytic fresh-cache model + ref.cms/ref.gkdi"}
     assumptions = ["'fresh cache' = a new KeyCache holding the root keys loaded so far", "two overlapping operations may both fetch: RPC economy is judged only for operations invoked after the covering one returned (global event sequence numbers)"]
     required_fired = ("cache_hit_no_rpc", "cache_made_it_possible", "legit_failure", "concurrent_groups", "covered_op", "identity_change", "many_l0", "slowconn", "cancelled_by_caller",
-                      "thread_groups", "thread_overlap", "thread_obtained", "damaged_record", "epochs_at_once", "dc_failover")
+                      "thread_groups", "thread_overlap", "thread_obtained", "damaged_record", "epochs_at_once", "dc_failover", "ladder_histories")
 
     def cases(self, tier, seed):
         rng = prng.stream(seed, "C10")
@@ -332,6 +354,7 @@ class C10(common.Check):
         probes["many_l0"] = int(case.get("family") == "many-l0")
         probes["epochs_at_once"] = int(case.get("family") == "epochs-at-once")
         probes["dc_failover"] = st.get("dc_failover", 0)
+        probes["ladder_histories"] = int(case.get("family") == "ladder")
         probes["thread_groups"] = sum(1 for g_, v in groups.items() if v > 1 and any(o.get("group") == g_ and o.get("fl") == "thread" for o in case["ops"]))
         probes["thread_overlap"] = st.get("toverlap", 0)
         sched = common.key_hash(tr.schedule)
